@@ -28,7 +28,13 @@ use thiserror::Error;
 use tracing::debug;
 
 static OPERATION_REGEX: Lazy<Regex> =
-    Lazy::new(|| Regex::new(r"\s*(entrypoint|field|pointer)\s*([^\.\s]+)\.([^\s\(]+)").unwrap());
+    // N.B. this must accept the same headers as the Isograph compiler's parser: the keyword
+    // at the start, whitespace, then `Type.field` (with optional whitespace around the dot),
+    // where both are identifiers.
+    Lazy::new(|| {
+        Regex::new(r"^(entrypoint|field|pointer)\s+([A-Za-z_][A-Za-z0-9_]*)\s*\.\s*([A-Za-z_][A-Za-z0-9_]*)")
+            .unwrap()
+    });
 
 #[derive(Deserialize)]
 #[serde(deny_unknown_fields)]
